@@ -133,8 +133,40 @@ func staticKinds(v ssa.Value, depth int) KindSet {
 			s |= staticKinds(e, depth-1)
 		}
 		return s
+	case *ssa.Parameter:
+		// the key or value of a reflect map/sequence iteration written as range-over-func: always a valid Value
+		if reflectSeqOf(x) != nil {
+			return AllKinds &^ Kinds(kInvalid)
+		}
 	}
 	return AllKinds
+}
+
+// reflectSeqOf: p is a parameter of the body of `for k, v := range X.Seq2()` (or Seq): returns X.
+func reflectSeqOf(p *ssa.Parameter) ssa.Value {
+	body := p.Parent()
+	if body == nil || body.Parent() == nil || !strings.Contains(body.Synthetic, "range-over-func") {
+		return nil
+	}
+	var recv ssa.Value
+	core.EachInstr(body.Parent(), func(i ssa.Instruction) {
+		call, ok := i.(*ssa.Call)
+		if !ok || call.Call.StaticCallee() != nil || call.Call.IsInvoke() || len(call.Call.Args) != 1 {
+			return
+		}
+		mc, ok := call.Call.Args[0].(*ssa.MakeClosure)
+		if !ok || mc.Fn != body {
+			return
+		}
+		for _, src := range traceSources(call.Call.Value) {
+			if sc, ok := src.(*ssa.Call); ok {
+				if k := core.CalleeKey(&sc.Call); k == "reflect.Value.Seq2" || k == "reflect.Value.Seq" {
+					recv = sc.Call.Args[0]
+				}
+			}
+		}
+	})
+	return recv
 }
 
 type partialSite struct {
@@ -204,6 +236,9 @@ func (c *Ctx) kindsAt(fn *ssa.Function, recv ssa.Value, at ssa.Instruction) (Kin
 		kfCache[key] = kf
 	}
 	ks := kf.At(at)
+	if p != nil && reflectSeqOf(p) != nil {
+		ks &= AllKinds &^ Kinds(kInvalid) // the key or value of a reflect iteration is a valid Value
+	}
 	if p == nil {
 		ks &= staticKinds(recv, 4)
 		if phi, ok := recv.(*ssa.Phi); ok && kindsDepth < 6 {
@@ -411,14 +446,14 @@ func (c *Ctx) shapeGuardKinds(fn *ssa.Function, recv ssa.Value, at ssa.Instructi
 
 // exemptions: function:op -> reason
 var partialExempt = map[string]string{
-	"(*state).applyDefaults:Elem":             "documented contract of ApplyDefaults: the argument must be a pointer to the instance",
-	"(*Schema).CloneSchemas:Interface":        "fields reached through the registry are exported fields of Schema",
-	"(*Schema).everyChild:Interface":          "fields reached through the registry are exported fields of Schema",
-	"role:structure-check:Interface":          "the value is a *Schema reached from the root through exported fields",
-	"jsonNumber:Interface":                    "json.Number is tested only on values the caller obtained from exported data",
-	"marshalStructWithMap:Interface":          "the map field is named by a constant that C18/unknown-accepted checks to be an existing, exported field of the wrapper's embedded Schema",
-	"role:structure-check:Elem":               "the structure check is applied only to *Schema values: the root and the contents of schema-bearing fields selected by the registry (C17/registry-exhaustive); nil is rejected before the fields are visited",
-	"role:structure-check:FieldByIndex":       "as above: Elem of a non-nil *Schema is the Schema struct",
+	"(*state).applyDefaults:Elem":       "documented contract of ApplyDefaults: the argument must be a pointer to the instance",
+	"(*Schema).CloneSchemas:Interface":  "fields reached through the registry are exported fields of Schema",
+	"(*Schema).everyChild:Interface":    "fields reached through the registry are exported fields of Schema",
+	"role:structure-check:Interface":    "the value is a *Schema reached from the root through exported fields",
+	"jsonNumber:Interface":              "json.Number is tested only on values the caller obtained from exported data",
+	"marshalStructWithMap:Interface":    "the map field is named by a constant that C18/unknown-accepted checks to be an existing, exported field of the wrapper's embedded Schema",
+	"role:structure-check:Elem":         "the structure check is applied only to *Schema values: the root and the contents of schema-bearing fields selected by the registry (C17/registry-exhaustive); nil is rejected before the fields are visited",
+	"role:structure-check:FieldByIndex": "as above: Elem of a non-nil *Schema is the Schema struct",
 }
 
 func (c *Ctx) partialSites(rule string, closures []string) ([]partialSite, int) {
@@ -452,14 +487,27 @@ func (c *Ctx) partialSites(rule string, closures []string) ([]partialSite, int) 
 				}
 				total++
 				recv := call.Common().Args[0]
-				ks, p := c.kindsAt(fn, recv, i)
-				if !ks.SubsetOf(allowed) {
-					subj, _, _ := c.subjectOf(fn, recv)
-					if rk, ok := c.relationalKinds(fn, recv, i, subj); ok {
-						ks &= rk
-					}
-					if sk, ok := c.shapeGuardKinds(fn, recv, i); ok {
-						ks &= sk
+				ks, p := c.kindsFull(fn, recv, i, allowed)
+				// inside the body of a range-over-func loop a captured value still has the kinds it had where the loop starts
+				if !ks.SubsetOf(allowed) && strings.Contains(fn.Synthetic, "range-over-func") && fn.Parent() != nil {
+					if ld, ok := recv.(*ssa.UnOp); ok && ld.Op == token.MUL {
+						if cell := resolveCell(ld.X); cell != nil && cell.Parent() != fn {
+							parent := fn.Parent()
+							var mc ssa.Instruction
+							var pl ssa.Value
+							core.EachInstr(parent, func(j ssa.Instruction) {
+								if m, ok := j.(*ssa.MakeClosure); ok && m.Fn == fn {
+									mc = m
+								}
+								if l2, ok := j.(*ssa.UnOp); ok && l2.Op == token.MUL && resolveCell(l2.X) == cell && pl == nil {
+									pl = l2
+								}
+							})
+							if mc != nil && pl != nil {
+								pk, _ := c.kindsFull(parent, pl, mc, allowed)
+								ks &= pk
+							}
+						}
 					}
 				}
 				out = append(out, partialSite{fn: fn, call: i, op: op, recv: recv, allowed: allowed, got: ks, param: p})
@@ -665,4 +713,19 @@ func (c *Ctx) structureCheckFamily(rule string) map[*ssa.Function]bool {
 		}
 	}
 	return c.structFam
+}
+
+// kindsFull: kindsAt refined by relational guards (Kind(x) == Kind(y)) and registry shape guards.
+func (c *Ctx) kindsFull(fn *ssa.Function, recv ssa.Value, at ssa.Instruction, allowed KindSet) (KindSet, *ssa.Parameter) {
+	ks, p := c.kindsAt(fn, recv, at)
+	if !ks.SubsetOf(allowed) {
+		subj, _, _ := c.subjectOf(fn, recv)
+		if rk, ok := c.relationalKinds(fn, recv, at, subj); ok {
+			ks &= rk
+		}
+		if sk, ok := c.shapeGuardKinds(fn, recv, at); ok {
+			ks &= sk
+		}
+	}
+	return ks, p
 }
